@@ -1,0 +1,87 @@
+//go:build verif
+
+package raft
+
+import "github.com/jmsadair/raft/logging"
+
+// VerifState is a read-only sample of the internal state of a node.
+// Only compiled with the verif tag; used by external runtime monitors.
+type VerifState struct {
+	ID                     string
+	State                  State
+	Term                   uint64
+	VotedFor               string
+	LeaderID               string
+	CommitIndex            uint64
+	LastApplied            uint64
+	LastIncludedIndex      uint64
+	LastIncludedTerm       uint64
+	Configuration          *Configuration
+	CommittedConfiguration *Configuration
+	Match                  map[string]uint64
+	Next                   map[string]uint64
+	LeaseValid             bool
+	PendingReplicated      int
+	PendingReadOnly        int
+}
+
+// VerifState returns a sample of the internal state taken under the node mutex.
+func (r *Raft) VerifState() VerifState {
+	r.mu.Lock()
+	defer r.mu.Unlock()
+	return r.VerifStateLocked()
+}
+
+// VerifStateLocked returns a sample of the internal state. The caller must
+// already hold the node mutex (e.g. it runs inside a storage callback made by
+// the node while it holds the mutex).
+func (r *Raft) VerifStateLocked() VerifState {
+	s := VerifState{
+		ID:                r.id,
+		State:             r.state,
+		Term:              r.currentTerm,
+		VotedFor:          r.votedFor,
+		LeaderID:          r.leaderID,
+		CommitIndex:       r.commitIndex,
+		LastApplied:       r.lastApplied,
+		LastIncludedIndex: r.lastIncludedIndex,
+		LastIncludedTerm:  r.lastIncludedTerm,
+		Match:             make(map[string]uint64, len(r.followers)),
+		Next:              make(map[string]uint64, len(r.followers)),
+	}
+	if r.configuration != nil {
+		c := r.configuration.Clone()
+		s.Configuration = &c
+	}
+	if r.committedConfiguration != nil {
+		c := r.committedConfiguration.Clone()
+		s.CommittedConfiguration = &c
+	}
+	for id, f := range r.followers {
+		s.Match[id] = f.matchIndex
+		s.Next[id] = f.nextIndex
+	}
+	if r.operationManager != nil {
+		s.LeaseValid = r.operationManager.leaderLease.isValid()
+		s.PendingReplicated = len(r.operationManager.pendingReplicated)
+		s.PendingReadOnly = len(r.operationManager.pendingReadOnly)
+	}
+	return s
+}
+
+// VerifLogger returns the logger of this node so that a fatal hook can tell
+// which node a fatal message belongs to.
+func (r *Raft) VerifLogger() *logging.Logger {
+	return r.logger
+}
+
+// VerifLogBase returns the index and term of the placeholder entry of a
+// file-backed log (the compaction boundary). ok is false for other Log
+// implementations or a log that is not open.
+func VerifLogBase(l Log) (index uint64, term uint64, ok bool) {
+	p, isPersistent := l.(*persistentLog)
+	if !isPersistent || len(p.entries) == 0 {
+		return 0, 0, false
+	}
+	return p.entries[0].Index, p.entries[0].Term, true
+}
